@@ -845,3 +845,49 @@ V("C04-benign-elif-order", "C04", "list/dict branches swapped in the writer", XM
             for item in value:
                 sub = self._to_element("item", item)
                 ele.append(sub)""")
+
+# ------------------------------------------------------------------------------------------ C17
+V("C17-setdefault-drops-result", "C17", "D12 re-introduced", DICT,
+  "    def setdefault(self, key: Any, value: Any = None) -> Any:\n        key, value = self._validate(key, value)\n        return super().setdefault(key, value)",
+  "    def setdefault(self, key: Any, value: Any) -> None:\n        key, value = self._validate(key, value)\n        super().setdefault(key, value)",
+  expect_rule="DictProxy.setdefault")
+V("C17-setitem-silent", "C17", "D13 re-introduced: __setitem__ ignores unknown index types", LIST,
+  "        if isinstance(index, slice):\n            super().__setitem__(index, [self._validate(i) for i in item])\n        else:\n            super().__setitem__(index, self._validate(item))",
+  "        if isinstance(index, slice) and isinstance(item, (list, tuple)):\n            super().__setitem__(index, [self._validate(i) for i in item])\n        elif isinstance(index, int):\n            super().__setitem__(index, self._validate(item))",
+  expect_rule="mutator.delegates @ ListProxy.__setitem__")
+V("C17-update-deleted", "C17", "DictProxy.update removed (inherits dict.update)", DICT,
+  """    def update(self, iterable: Optional[KeyValuePairs] = None, **kwargs) -> None:
+        if iterable:
+            if isinstance(iterable, DictProxy) and self._is_compatible_proxy(iterable):
+                for key, value in iterable.items():
+                    super().__setitem__(key, value)
+            else:
+                super().update(
+                    [
+                        self._validate(key, value)
+                        for key, value in _iterate_dict_like(iterable)
+                    ]
+                )
+
+        for key, value in kwargs.items():
+            self.__setitem__(key, value)
+
+""", "", expect_rule="override @ DictProxy", accept_analysis_error=True)
+V("C17-copy-plain", "C17", "DictProxy.copy returns a plain dict", DICT,
+  "        return DictProxy(self.cfg, self.dict_field, self)", "        return dict(self)", expect_rule="result.proxy @ DictProxy.copy")
+V("C17-iadd-none", "C17", "ListProxy.__iadd__ forgets to return self", LIST,
+  "        self.extend(iterable)\n        return self", "        self.extend(iterable)", expect_rule="result.self @ ListProxy.__iadd__")
+V("C17-add-plain", "C17", "ListProxy.__add__ returns a plain list", LIST,
+  "        ret = self.copy()\n        ret.extend(iterable)\n        return ret", "        return list(self) + [self._validate(i) for i in iterable]",
+  expect_rule="result.proxy @ ListProxy.__add__")
+V("C17-update-no-kwargs", "C17", "DictProxy.update loses keyword support", DICT,
+  "    def update(self, iterable: Optional[KeyValuePairs] = None, **kwargs) -> None:", "    def update(self, iterable: Optional[KeyValuePairs] = None, kwargs=()) -> None:",
+  expect_rule="arity @ DictProxy.update", accept_analysis_error=True)
+V("C17-extend-only-lists", "C17", "extend silently ignores non-list iterables", LIST,
+  "        else:\n            super().extend(self._validate(item) for item in iterable)", "        elif isinstance(iterable, (list, tuple)):\n            super().extend(self._validate(item) for item in iterable)",
+  expect_rule="mutator.delegates @ ListProxy.extend")
+V("C17-ior-none", "C17", "DictProxy.__ior__ returns None", DICT,
+  "        self.update(other)\n        return self", "        self.update(other)", expect_rule="result.self @ DictProxy.__ior__")
+V("C17-benign-setitem-rewrite", "C17", "__setitem__ with early return instead of else", LIST, expect="silent",
+  old="        if isinstance(index, slice):\n            super().__setitem__(index, [self._validate(i) for i in item])\n        else:\n            super().__setitem__(index, self._validate(item))",
+  new="        if isinstance(index, slice):\n            super().__setitem__(index, [self._validate(i) for i in item])\n            return\n        super().__setitem__(index, self._validate(item))")
